@@ -125,12 +125,12 @@ def _ps_enc(switch: bytes, nfree: int, quote: bytes = b""):
 
 
 FP = ["multidecoder.decoders.shell.find_powershell_strings", "multidecoder.decoders.shell.strip_carets"]
-for k in (1, 2, 3, 7, 14):
+for k in range(1, 15):
     for style in (b"-", b"/"):
         sw = style + ENC_WORD[:k]
         t, body = _ps_enc(sw, 2)
         _add(f"ps_enc_{'dash' if style == b'-' else 'slash'}_{k}", t, body, funcs=FP, timeout=600,
-             tier="both" if ((k == 1 and style == b"-") or (k == 3 and style == b"/") or (k == 14 and style == b"-")) else "thorough")
+             tier="both" if (style == b"-" or k in (1, 3, 14)) else "thorough")
 t, body = _ps_enc(b"-e", 4)
 _add("ps_enc_dash_1_free4", t, body, funcs=FP, timeout=3000, tier="thorough")
 t, body = _ps_enc(b"-EnC", 2, quote=b'"')
